@@ -489,7 +489,7 @@ theorem updateCallX_true (cfg : Cfg) (t : Target) (r : Record) (c : Call) :
 theorem writeRecordX_true (cfg : Cfg) (prev : Option Nat) (r : Record) :
     writeRecordX true cfg prev r = writeRecord { cfg with repaired := true } prev r := by
   unfold writeRecordX writeRecord
-  simp only [if_true, updateCallX_true]
+  simp only [if_true, updateCallX_true, Bool.true_or, Bool.not_true, Bool.and_false, Bool.false_and, Bool.or_false]
   rfl
 
 theorem writeChromX_true (cfg : Cfg) : ∀ (rs : List Record) (prev : Option Nat),
